@@ -90,8 +90,9 @@ class CorrSim:
         asyncio.set_event_loop(self.loop)
         self._ckw = dict(directory=directory, max_ttl_response=ttl_resp_q / Q, max_ttl_delivery=ttl_deliv_q / Q)
         self.corr = cm.SimpleCorrelator('c', **self._ckw)
+        from sim.simlib import next_log_level
         self.esme = ESME('h', 1, 'sys', 'pw', hook=Hook(), correlator=self.corr, throttle_handler=Thr(),
-                         log_handler=logging.NullHandler(), log_level='CRITICAL')
+                         log_handler=logging.NullHandler(), log_level=next_log_level())
         self.first_line = 'c.new %d %d' % (ttl_resp_q, ttl_deliv_q)
 
     def reload(self):
